@@ -15,7 +15,7 @@ PLAIN_IDENTS = ["a", "b", "c", "t", "u", "id", "v"]
 
 class Gen:
     def __init__(self, rng, backend="pg", plain=False, allow_panic=True, max_depth=4, subqueries=True,
-                 ops=None, weird_strings=True, no_marks=False):
+                 ops=None, weird_strings=True, no_marks=False, parseable=False):
         self.r = rng
         self.b = backend
         self.plain = plain            # only plain identifiers / simple values
@@ -25,6 +25,7 @@ class Gen:
         self.ops = ops
         self.weird = weird_strings
         self.no_marks = no_marks      # no placeholder marks in user-supplied raw SQL, no doubled marks
+        self.parseable = parseable    # only constructs the oracle parser understands (no raw SQL text)
 
     # ---- leaves ----
     def ident(self):
@@ -74,7 +75,7 @@ class Gen:
         if k < 0.8:
             return r.choice(COMMON_BINOPS)
         if k < 0.86:
-            return "cust:%s" % hexs(r.choice(["~~", "<=>", "SOUNDS LIKE", "||", "@"]))
+            return "cust:%s" % hexs(r.choice(["~~", "<=>", "||", "@"] + ([] if self.parseable else ["SOUNDS LIKE"])))
         if self.b == "pg" or (self.allow_panic and k < 0.88):
             return r.choice(PG_BINOPS)
         if self.b == "sl" or (self.allow_panic and k < 0.9):
@@ -92,7 +93,7 @@ class Gen:
             return "(const %s)" % self.value()
         if k < 0.9:
             return "(kw %s)" % r.choice(["null", "cdate", "ctime", "cts", "cust:%s" % hexs("FOO")])
-        if k < 0.95:
+        if k < 0.95 and not self.parseable:
             return "(cust %s)" % hexs(r.choice(["1 + 1", "x", "NOW()", "a OR b"] + ([] if self.no_marks else ["?"])))
         return "(star)"
 
@@ -130,7 +131,7 @@ class Gen:
             return "(vals %s)" % " ".join(self.value() for _ in range(r.randrange(1, 4)))
         if k < 0.90:
             return self.api_node(d)
-        if k < 0.93:
+        if k < 0.93 and not self.parseable:
             return self.custom_with(d)
         if k < 0.97 and self.subqueries:
             op = r.choice(["-", "-", "exists", "any", "some", "all"] if (self.b != "sl" or self.allow_panic) else ["-", "exists"])
